@@ -78,6 +78,11 @@ extend google.protobuf.MethodOptions { optional Cfg method_cfg = 50001; optional
 extend google.protobuf.ExtensionRangeOptions { optional Cfg ext_range_cfg = 50001; optional int32 ext_range_i = 50002; repeated string ext_range_rs = 50003; optional Color ext_range_c = 50004; repeated Cfg ext_range_rcfg = 50005; optional int32 ext_range_src = 50006 [retention = RETENTION_SOURCE]; }
 `
 
+// prototextSafe restricts scalar spellings inside message literals to those that Go's prototext parser
+// also accepts (no hex/octal integer for float fields, no whitespace between a sign and the number).
+// It is set per generated workspace from Config.PrototextSafe (generation is single-threaded).
+var prototextSafe bool
+
 // OptKinds are the element kinds that can carry options.
 var OptKinds = []string{"file", "message", "field", "oneof", "enum", "enum_value", "service", "method", "ext_range"}
 
@@ -114,17 +119,25 @@ type OF struct {
 
 type scalarGen func(t *rapid.T) SV
 
-func svInt(spell string, v int64) SV { return SV{strings.ReplaceAll(spell, "-", "-\x00"), protoreflect.ValueOfInt64(v)} }
+func svInt(spell string, v int64) SV { return SV{spell, protoreflect.ValueOfInt64(v)} }
+
+// signSplit separates a leading minus sign into its own token (legal in .proto source) unless prototextSafe.
+func signSplit(s SV) SV {
+	if !prototextSafe && strings.HasPrefix(s.Spell, "-") && !strings.Contains(s.Spell, "\x00") {
+		s.Spell = "-\x00" + s.Spell[1:]
+	}
+	return s
+}
 
 var int32Pool = []SV{svInt("0", 0), svInt("1", 1), svInt("-1", -1), svInt("2147483647", 2147483647), svInt("-2147483648", -2147483648), svInt("0x1F", 31), svInt("017", 15), svInt("-0x10", -16), svInt("42", 42)}
 
 func genInt32(t *rapid.T) SV {
-	s := Pick(t, int32Pool, "i32")
+	s := signSplit(Pick(t, int32Pool, "i32"))
 	return SV{s.Spell, protoreflect.ValueOfInt32(int32(s.V.Int()))}
 }
 
 func genInt64(t *rapid.T) SV {
-	return Pick(t, []SV{svInt("0", 0), svInt("-9223372036854775808", math.MinInt64), svInt("9223372036854775807", math.MaxInt64), svInt("0xff", 255), svInt("-7", -7)}, "i64")
+	return signSplit(Pick(t, []SV{svInt("0", 0), svInt("-9223372036854775808", math.MinInt64), svInt("9223372036854775807", math.MaxInt64), svInt("0xff", 255), svInt("-7", -7)}, "i64"))
 }
 
 func genUint64(t *rapid.T) SV {
@@ -150,8 +163,12 @@ func genFloat(bits32 bool) scalarGen {
 		p := []struct {
 			s string
 			v float64
-		}{{"1.5", 1.5}, {"0", 0}, {"-\x002.25", -2.25}, {"1e3", 1000}, {"3", 3}, {"-\x007", -7}, {"inf", math.Inf(1)}, {"-\x00inf", math.Inf(-1)}, {"nan", math.NaN()}, {"0x10", 16}, {"1e-3", 0.001}, {".5", 0.5}, {"5.", 5}, {"1e40", 1e40}, {"18446744073709551616", 18446744073709551616}}
+		}{{"1.5", 1.5}, {"0", 0}, {"-2.25", -2.25}, {"1e3", 1000}, {"3", 3}, {"-7", -7}, {"inf", math.Inf(1)}, {"-inf", math.Inf(-1)}, {"nan", math.NaN()}, {"1e-3", 0.001}, {".5", 0.5}, {"5.", 5}, {"1e40", 1e40}, {"18446744073709551616", 18446744073709551616}, {"0x10", 16}}
+		if prototextSafe {
+			p = p[:len(p)-1]
+		}
 		x := Pick(t, p, "float")
+		x.s = signSplit(SV{Spell: x.s}).Spell
 		if bits32 {
 			return SV{x.s, protoreflect.ValueOfFloat32(float32(x.v))}
 		}
@@ -640,6 +657,7 @@ func (b *builder) addCustom(f *File, kind, fqn string) []Opt {
 	if !b.cfg.CustomOpts || !b.pct(b.cfg.CustomOptPct, "hascustom") {
 		return nil
 	}
+	prototextSafe = b.cfg.PrototextSafe
 	site := &CustomSite{File: f.Name, Kind: kind, FQN: fqn}
 	var stmts []Opt
 	n := 1 + Uniform(b.t, 2, "ncustom")
